@@ -235,6 +235,13 @@ func Encode[T any](encoder schemes.Encoder, diagonals Diagonals[T], allocated Li
 		}
 	} else {
 
+		// Every diagonal of the input must have been allocated (as in the case above).
+		for _, i := range diags {
+			if _, ok := allocated.Vec[i&(cols-1)]; !ok {
+				return fmt.Errorf("cannot Encode: error encoding on LinearTransformation BSGS: plaintext diagonal [%d] does not exist", i&(cols-1))
+			}
+		}
+
 		index, _, _ := allocated.BSGSIndex()
 
 		for j := range index {
